@@ -18,6 +18,8 @@ type Case struct {
 	// SrcNoDatum: where WGS84 would be the source, use the geographic system on the WGS84 ellipsoid WITHOUT a datum
 	// (+ellps=WGS84 only) - the pairing of a datum-less reference with a 3/7-parameter one
 	SrcNoDatum bool    `json:"src_no_datum,omitempty"`
+	// SrcNone: how the datum-less source says that it has no datum ("" = not at all, "+datum=none", "+nadgrids=@null")
+	SrcNone string `json:"src_none,omitempty"`
 	Lon        float64 `json:"lon"` // degrees east of Greenwich
 	Lat        float64 `json:"lat"`
 }
@@ -27,6 +29,9 @@ func gen(t *rapid.T) Case {
 	c.Dst = projkit.GenDef(t, projkit.Opts{SmallShift: true, WithAxis: true, WithRA: true})
 	c.SrcSame = rapid.Bool().Draw(t, "srcsame")
 	c.SrcNoDatum = rapid.IntRange(0, 2).Draw(t, "srcnodatum") == 1
+	if c.SrcNoDatum {
+		c.SrcNone = rapid.SampledFrom([]string{"", "+datum=none", "+nadgrids=@null"}).Draw(t, "srcnone")
+	}
 	c.Lon, c.Lat = projkit.GenPosition(t, c.Dst)
 	if c.Dst.HasShift() && math.Abs(c.Lat) > 86 {
 		// through a datum shift the round trip loses the height gained in the shift (a 2-D API): with the largest shifts
@@ -125,7 +130,7 @@ func run(c Case) (v vkit.Verdict) {
 		}
 	}
 	if !c.SrcSame && c.SrcNoDatum {
-		srcDef = projkit.Def{Proj: "longlat", EllpsKind: "name", Ellps: "WGS84"}
+		srcDef = projkit.Def{Proj: "longlat", EllpsKind: "name", Ellps: "WGS84", NoneSpelling: c.SrcNone}
 		v.Class("source_without_datum")
 	}
 	src := srcDef.String()
@@ -213,7 +218,8 @@ func TestProp(t *testing.T) {
 			"stage: geo->proj->geo within 1e-6 deg (lon modulo 360), then proj->geo->proj within 0.01 m in the destination unit (0.02 m when a small +towgs84 shift from WGS84 is part of the round trip; named datums with large shifts and non-WGS84 ellipsoids with a shift are always paired with the geographic system on their own datum, because a 2-D round trip cannot carry the ellipsoidal height), " +
 			"no error or NaN. Non-trivial = non-default ellipsoid, or a datum, or a non-metre unit, or a position >1 deg from the central meridian. Distinct by case hash." +
 			" Round 9: the innermost ring before the pole (0.0002-0.0003 degrees) is drawn three times as often; positions that pass a datum shift stay at |lat| <= 86." +
-			" Round 10: one definition in ten carries +R_A; Mercator positions through a datum shift stay at |lat| <= 75.",
+			" Round 10: one definition in ten carries +R_A; Mercator positions through a datum shift stay at |lat| <= 75." +
+			" Round 12: the datum-less source also comes spelled with '+datum=none' or '+nadgrids=@null'.",
 		Assumptions: []string{"positions exactly on the meridian opposite the central one are the edge of the map, not inside the usable region (an experiment with such positions showed the unchanged tree putting them on either edge after a prime-meridian shift, and Mercator refusing lon = pi + 1 ulp): they are not generated", "explicit +towgs84 terms are kept small (<=100 m, <=1 arcsec, <=5 ppm) in this check; large shifts are checked differentially against proj4js in C09"},
 		Gen:         gen,
 		Run:         run,
